@@ -23,6 +23,7 @@ def run(ctx):
                             'singly and as multi-grid documents; distinct by dumped text')
     gs = [codec.gen_grid(rng, rng.choice(['2.0', '3.0', '3.0']), depth=rng.choice([0, 1, 2, 3])) for _ in range(n)]
     gs += codec.zone_sweep_grids(rng)        # one date-time in every mapped zone
+    gs += codec.reserved_tag_grids(flat=True)         # dict values whose tags are the names of the JSON grid encoding (meta, cols, rows)
     texts = []
     for g in gs:
         try:
